@@ -10,16 +10,19 @@
    (file by path, subbuild by key) those of the forest entry by entry, and c' is a fixed
    point of a second cycle.  Refusals: Proofs/CacheRTRefuse.v (wrong software / version /
    shape -> ReadRuntime or ReadMalformed; m_build / m_clean then refuse with the world
-   untouched).  NOT a theorem: that the cache a committed build of the mechanism model holds
-   satisfies `writable` (stated in CacheRTOpen.v; checked by computation on three builds in
-   CacheRTEx.v, and by T2/T3 on every generated history). *)
+   untouched).  C16_committed_cache_is_writable / C16_committed_cache_is_writable_next
+   (Proofs/SimH1-17.v): the cache a committed build of the mechanism model holds - a first build, and a build that
+   starts from the cache file of such a build - satisfies `writable`, its tables are those of its forest, and the
+   cache file it leaves holds cache_to_json of it: the hypotheses of C16_cache_roundtrip hold of every cache the
+   library writes in a fault-free history (prog_paths_wf: legal paths in the program). *)
 From Coq Require Import List String Bool ZArith.
 Open Scope Z_scope. Open Scope string_scope. Open Scope list_scope.
 From FB.Base Require Import PyVal Fs.
 From FB.Gen Require Import JsonUtilGen.
 From FB.Spec Require Import JsonSpec.
-From FB.Model Require Import Types SimpleOps Persist PersistSpec.
-From FB.Proofs Require Import JsonLaws PersistLaws CacheRTDefs CacheRTLaws CacheRTTables CacheRTCycle CacheRTForest CacheRTMain.
+From FB.Spec Require Import Prog.
+From FB.Model Require Import Types Monad SimpleOps Builder PathNorm Persist PersistSpec Build Run.
+From FB.Proofs Require Import JsonLaws PersistLaws CacheRTDefs CacheRTLaws CacheRTTables CacheRTCycle CacheRTForest CacheRTMain CacheRTOpen SimH7 SimH17.
 From Coq Require Import Permutation.
 From FB.Proofs Require CacheGenLaws.   (* T1g: the model routines are equal to the translation of the source (Gen/CacheGen.v) *)
 Import ListNotations.
@@ -81,3 +84,36 @@ Example C16_nonvacuous :
              (PDict [(PStr "b", PInt 2); (PStr "a", PNone)]) false false in
   op_wf o = true /\ rt_op o = Some (norm_op o) /\ op_eqb o (norm_op o) = false.
 Proof. vm_compute. repeat split. Qed.
+
+(* the hypotheses of the round-trip theorem hold of the cache every committed first build holds, and the cache file
+   is its serialisation *)
+Theorem C16_committed_cache_is_writable :
+  forall cf nm vers svers root w w' v,
+    sanitize vers = Some svers -> path_wf cf = true -> prog_paths_wf root ->
+    fs_wf (w_fs w) -> w_faults w = [] -> lookup (w_fs w) cf = None ->
+    run_build cf nm vers root w = (w', Done (inl v)) ->
+    let c := w_new w' in
+    exists roots,
+      writable c roots /\ tables_perm_forest c roots /\
+      (forall p, files_get (c_files c) p =
+                 files_get (c_files (tables_of (c_name c) (c_fvers c) (c_dirs c) roots)) p) /\
+      forest_good roots /\ paths_nodup (c_dirs c) = true /\
+      exists f, lookup (w_fs w') cf = Some (NFile f) /\ f_json f = cache_to_json c.
+Proof. exact committed_cache_wf. Qed.
+
+(* ... and of the cache of a build that starts from the cache file of such a build: inherited along a history *)
+Theorem C16_committed_cache_is_writable_next :
+  forall cf nm vers svers root w w' v f0 c0 roots0,
+    sanitize vers = Some svers -> path_wf cf = true -> prog_paths_wf root ->
+    fs_wf (w_fs w) -> w_faults w = [] ->
+    lookup (w_fs w) cf = Some (NFile f0) -> f_json f0 = cache_to_json c0 ->
+    writable c0 roots0 -> forest_good roots0 -> c_name c0 = nm ->
+    run_build cf nm vers root w = (w', Done (inl v)) ->
+    let c := w_new w' in
+    exists roots,
+      writable c roots /\ tables_perm_forest c roots /\
+      (forall p, files_get (c_files c) p =
+                 files_get (c_files (tables_of (c_name c) (c_fvers c) (c_dirs c) roots)) p) /\
+      forest_good roots /\ paths_nodup (c_dirs c) = true /\
+      exists f, lookup (w_fs w') cf = Some (NFile f) /\ f_json f = cache_to_json c.
+Proof. exact committed_cache_wf_next. Qed.
